@@ -710,6 +710,9 @@ def shared(ctx):
     # the two spenders sit in the batch (C02.R3: one set, every input of every transaction, a repeated insert is an error)
     from rules.props import c02
     core.import_rules(ctx, [c02.r3_double_spend], "X02")
+    # 'equals one at a time / any other split into batches': what a batch does to the coin tree must not depend on what EARLIER calls of the same block recorded
+    # (C02.R5: every output of every member inserted, every input removed — no skip keyed on the block's transaction set)
+    core.import_rules(ctx, [c02.r5_effects], "X02")
     # the same for a faucet applied twice: the duplicate test must look at the state as it grows through the batch (handle_faucet_tx on the state being built, C19.R1/R3),
     # not at the pre-batch state every parallel validation sees — otherwise two copies in one batch pass where one-at-a-time rejects the second
     from rules.props import c19
